@@ -94,6 +94,16 @@ impl SyncHooks for Router {
     }
 }
 
+/// A scheduling point for an operation that is atomic in itself (hook H7): the calling controlled thread may be
+/// preempted before it.
+pub fn atomic_point(id: usize) {
+    let r = Router;
+    if r.controlled() {
+        r.lock(id);
+        r.unlock(id);
+    }
+}
+
 pub fn install_router() {
     jxl_render::verif_sync::set_hooks(Some(Arc::new(Router)));
 }
